@@ -12,6 +12,6 @@ diff <(cat /repo/$file) $d/mut.go | head -20
 printf '{"Replace":{"/repo/%s":"%s/mut.go"}}' "$file" "$d" > $d/overlay.json
 cd "$(dirname "$0")"
 VERIF_OVERLAY=$d/overlay.json VERIF_EVIDENCE_DIR=$d ./check $id --tier $tier; rc=$?
-rm -rf $d out/bin/*.ovl*
+rm -rf $d out/bin/*.ovl$(printf %s "$d/overlay.json" | sha256sum | cut -c1-8)
 echo "mutate.sh: check exit code $rc"
 exit $rc
